@@ -79,3 +79,62 @@ package ctrlflow
 //@     invariant len(candidates) > 0
 //@   unclaimed (*math/rand.Rand).Intn/requires because needs "every candidate block has a successor" preserved across in-place graph mutation (separation of the candidate list from the blocks' successor arrays); outside what this generator discharges
 //@ end
+
+// ---- C11: the dispatcher built by control-flow flattening ----
+// Every jump and branch is redirected to a fake block that enters the dispatcher; the dispatcher's
+// phi receives, on the edge from fake block k, the constant that the k-th comparison tests, and
+// the k-th comparison's true branch is the real target of fake block k. Each iteration is proved
+// to build its own link correctly (claims about element _i-1); that later iterations leave earlier
+// links alone is not proved (it needs separation of blocks allocated in different iterations).
+
+//@ func setType
+//@   property C11
+//@   trusted sets the unexported field typ of one instruction through reflect and unsafe; assumed to write nothing else
+//@   assigns nothing
+//@ end
+
+//@ ghost mkVal map[ref]int
+
+//@ hookset dispatcher
+//@ hook after mvdan.cc/garble/internal/ctrlflow.makeSsaInt(v) (r)
+//@   mkVal[r] = v
+//@ end
+
+//@ func makeSsaInt
+//@   property C11
+//@   assigns nothing
+//@   ensures @constant-carries-the-value: r0 != nil && r0.Value == constant.MakeInt64(int64(i))
+//@ end
+
+//@ hookset dispatcher
+//@ hook before mvdan.cc/garble/internal/ctrlflow.makeSsaInt(v)
+//@   assert("phi-edge-k-belongs-to-fake-block-k", len(entryBlock.Preds) == i + 1 && entryBlock.Preds[i] == m.Fake)
+//@   assert("selector-values-are-never-zero-and-follow-the-permutation", v == phiIdxs[i])
+//@ end
+
+//@ func applyFlattening
+//@   property C11
+//@   hooks dispatcher
+//@   requires ssaFunc != nil
+//@   skip safety
+//@   maxpaths 4000
+//@   ensures @small-functions-are-left-alone: old(len(ssaFunc.Blocks)) < 3 ==> len(r0) == 0 && ref(ssaFunc.Blocks) == old(ref(ssaFunc.Blocks)) && len(ssaFunc.Blocks) == old(len(ssaFunc.Blocks))
+//@   ensures @dispatcher-entry-comes-first: old(len(ssaFunc.Blocks)) >= 3 ==> len(ssaFunc.Blocks) >= 1 && ssaFunc.Blocks[0] == entryBlock
+//@   ensures @phis-of-the-original-blocks-keep-their-edges: forall p *ssa.Phi :: p != phiInstr ==> ref(p.Edges) == old(ref(p.Edges)) && len(p.Edges) == old(len(p.Edges))
+//@   loop 0
+//@     invariant @redirected-edges-enter-the-dispatcher: len(blocksMapping) >= 1 ==> blocksMapping[len(blocksMapping)-1].Fake != nil && len(blocksMapping[len(blocksMapping)-1].Fake.Succs) == 1 && blocksMapping[len(blocksMapping)-1].Fake.Succs[0] == entryBlock
+//@     invariant len(entryBlock.Preds) == 0 && len(phiInstr.Edges) == 0 && len(entryBlock.Instrs) == 1 && entryBlock.Instrs[0] == phiInstr
+//@   loop 1
+//@     invariant len(entryBlock.Preds) == 0 && len(phiInstr.Edges) == 0 && len(entryBlock.Instrs) == 1 && entryBlock.Instrs[0] == phiInstr
+//@     invariant @selector-zero-is-reserved-for-the-real-entry: forall k int :: 0 <= k && k < len(phiIdxs) ==> phiIdxs[k] >= ite(k < _i, 1, 0)
+//@   loop 2
+//@     invariant @selector-zero-is-reserved-for-the-real-entry: forall k int :: 0 <= k && k < len(phiIdxs) ==> phiIdxs[k] >= 1
+//@     invariant @phis-of-the-original-blocks-keep-their-edges: forall p *ssa.Phi :: p != phiInstr ==> ref(p.Edges) == old(ref(p.Edges)) && len(p.Edges) == old(len(p.Edges))
+//@     invariant @one-entry-per-redirected-edge: len(entriesBlocks) == _i && len(info) == _i && len(phiInstr.Edges) == _i && len(entryBlock.Preds) == _i
+//@     invariant @comparison-k-jumps-to-the-real-target-of-edge-k: _i >= 1 ==> entriesBlocks[_i-1] != nil && len(entriesBlocks[_i-1].Succs) == 2 && entriesBlocks[_i-1].Succs[0] == blocksMapping[_i-1].Target
+//@     invariant @phi-edge-k-carries-the-value-stored-for-edge-k: _i >= 1 ==> phiInstr.Edges[_i-1] == info[_i-1].StoreVar
+//@     invariant @comparison-k-tests-the-value-stored-on-edge-k: _i >= 1 ==> mkVal[info[_i-1].StoreVar] == phiIdxs[_i-1] && mkVal[info[_i-1].CompareVar] == phiIdxs[_i-1]
+//@     invariant @comparison-k-compares-the-selector-for-equality: _i >= 1 ==> dyntypeis(entriesBlocks[_i-1].Instrs[0], *ssa.BinOp) && entriesBlocks[_i-1].Instrs[0].(*ssa.BinOp).X == phiInstr && entriesBlocks[_i-1].Instrs[0].(*ssa.BinOp).Op == token.EQL && entriesBlocks[_i-1].Instrs[0].(*ssa.BinOp).Y == info[_i-1].CompareVar && dyntypeis(entriesBlocks[_i-1].Instrs[1], *ssa.If) && entriesBlocks[_i-1].Instrs[1].(*ssa.If).Cond == entriesBlocks[_i-1].Instrs[0]
+//@     invariant @failed-comparison-falls-to-the-next-one: _i >= 2 ==> entriesBlocks[_i-2].Succs[1] == entriesBlocks[_i-1]
+//@     invariant @dispatcher-entry-jumps-to-the-first-comparison: _i == 1 ==> len(entryBlock.Succs) == 1 && entryBlock.Succs[0] == entriesBlocks[0]
+//@ end
